@@ -42,6 +42,15 @@ def run_property(pid: str, tier: str, seed: int) -> int:
         if b.cases == 0:
             raise CheckerError(f"bounded contract {b.function} ran zero cases")
 
+    # ---- an obligation that was discharged on the pinned tree and now comes back `unknown` ------
+    # (not: "the function left the supported subset") is a failed obligation without an input
+    base_proved = set(baseline.get("proved", []))
+    for o in rep.obligations:
+        if (o.status == UNDECIDED and o.name in base_proved
+                and not o.detail.startswith("outside the")):
+            o.status = FAILED_NO_INPUT
+            o.detail = "discharged on the baseline tree, not any more: " + o.detail
+
     # ---- failures from obligations -----------------------------------------
     have = {f.obligation for f in rep.failures}
     for o in rep.obligations:
